@@ -17,6 +17,7 @@ def run(repo, rep):
     rep.clause("C10-b", "first / last stripe flags are derived from the same bounds; create_padding overrides top/bottom exactly for partial stripes and clips left/right at the IFM edges")
     rep.clause("C10-c", "stripe geometry is axis- and side-consistent (strides[1]/skirt[0,2]/coord[-3] = H, strides[2]/skirt[1,3]/coord[-2] = W); bottom padding = last kernel row minus IFM height")
     rep.clause("C10-d", "the receptive-field formula is the same where it is duplicated")
+    rep.clause("C10-e", "stripe heights handed up a cascade stay even whenever any operator of that cascade resamples nearest-neighbour: the decision scans every scheduler op, filtered only by cascade identity and resampling mode")
     rep.undecided("that input box and pads equal the receptive field for all shapes; rolling-buffer sufficiency; every stripe height the scheduler proposes")
     rep.assume("stripe steps are positive and the depth-slice list is ascending")
     hg = repo.mod("high_level_command_stream_generator")
@@ -161,7 +162,19 @@ def run(repo, rep):
                 axes += [a for a, _ in RoleChecker().axes(x)]
             n += 1
             rep.check(len(set(axes)) == 1 and len(axes) >= 3, "C10-c", f"{AA}:{fn}", norm(call)[:100], f"mixed axes {axes}")
-    rep.floor("C10-c", 14)
+    # create_padding: the left / right clipping compares width-axis quantities only (coordinates indexed from the end:
+    # [-3] = H, [-2] = W, [-1] = C); locals without an axis in their name take the axis of what is assigned to them
+    from ..roles import infer_local_axes
+
+    cp_ = hn.func("create_padding")
+    rc2 = RoleChecker(index_conventions={r"(start_coord|end_coord|read_offset|read_shape)$": {-3: "H", -2: "W", -1: "C"}})
+    inferred = infer_local_axes(cp_, rc2)
+    for nm, kinds in sorted(inferred.items()):
+        rep.check(len(kinds) == 1, "C10-c", f"{HN}:create_padding", f"local `{nm}` holds quantities of one axis ({'/'.join(sorted(kinds))})", f"assigned from {sorted(kinds)} axes")
+    rc2.name_axes = {nm: next(iter(k)) for nm, k in inferred.items() if len(k) == 1}
+    for kind, txt, detail in rc2.check_function(cp_):
+        (rep.bad if kind == "bad" else rep.ok)("C10-c", f"{HN}:create_padding", txt[:110], detail)
+    rep.floor("C10-c", 18)
 
     # ---------------------------------------------------------------- d
     rs = aa.func("_required_size")
@@ -184,3 +197,27 @@ def run(repo, rep):
 
     with rep.borrow({"C03-e": "C10-e"}):
         c03.run(repo, rep)
+
+    # ---------------------------------------------------------------- e: even stripe heights under nearest-neighbour upscaling
+    sch = repo.mod("scheduler")
+    ps = sch.func("Scheduler.propose_schedule_striping")
+    SITE_E = "ethosu/vela/scheduler.py:Scheduler.propose_schedule_striping"
+    loops = [l for l in ast.walk(ps) if isinstance(l, ast.For) and any(isinstance(x, ast.Assign) and norm(x) == "force_even_stripe_heights = True" for x in ast.walk(l))
+             and not any(isinstance(x, ast.For) and x is not l and any(norm(y) == "force_even_stripe_heights = True" for y in ast.walk(x)) for x in ast.walk(l))]
+    if len(loops) != 1:
+        raise AnalysisError("propose_schedule_striping: the loop deciding force_even_stripe_heights was not found")
+    lp = loops[0]
+    rep.check(norm(lp.iter) in ("self.sched_ops", "reversed(self.sched_ops)", "list(self.sched_ops)"), "C10-e", SITE_E, "the scan ranges over all scheduler ops",
+              f"scan ranges over `{norm(lp.iter)}`: operators outside it (e.g. a nearest-neighbour resize upstream of the current op) no longer force even stripes, and the hardware upscales an odd stripe from the wrong row")
+    conds = [n_ for n_ in lp.body if isinstance(n_, ast.If)]
+    ok = len(conds) == 1 and isinstance(conds[0].test, ast.BoolOp) and isinstance(conds[0].test.op, ast.And)
+    if ok:
+        cj = [norm(v) for v in conds[0].test.values]
+        tgt = norm(lp.target)
+        ok = any(c in (f"ref_cost[{tgt}].cascade == ref_cost[sched_op].cascade", f"ref_cost[sched_op].cascade == ref_cost[{tgt}].cascade") for c in cj) and f"is_nearest({tgt}.resampling_mode)" in cj and \
+            all(c.startswith("ref_cost.get(") or "cascade" in c or "is_nearest" in c for c in cj)
+    rep.check(ok, "C10-e", SITE_E, "an op counts iff it is in the same cascade and resamples nearest-neighbour", norm(conds[0].test) if conds else "")
+    hs = [s_ for s_ in ast.walk(ps) if isinstance(s_, ast.Assign) and norm(s_.targets[0]) == "height"]
+    rep.check(len(hs) == 1 and norm(hs[0].value) == "stripe.height + (stripe.height % 2 if force_even_stripe_heights else upscaling_remainder)", "C10-e", SITE_E,
+              "forced-even height = stripe.height rounded up to even", norm(hs[0].value) if hs else "")
+    rep.floor("C10-e", 3)
